@@ -181,11 +181,15 @@ fn obs_small() -> Vec<String> {
 
 fn rand_slot(rng: &mut Rng, big: bool) -> u32 {
     if big {
-        let i = rng.below(14);
+        // ten numeric slots, the named slots n0..n3 and n10..n13 (interned in the order n0, n1, .., n19: the names sort
+        // differently from their codes as soon as they have two digits, and numeric codes lie in between)
+        let i = rng.below(18);
         if i < 10 {
             (i * 4) as u32
-        } else {
+        } else if i < 14 {
             ((i - 10) * 4 + 2) as u32
+        } else {
+            ((i - 4) * 4 + 2) as u32
         }
     } else {
         SMALL[rng.below(4)]
